@@ -248,3 +248,61 @@ def rule_N2(prog, fixture=False):
                 res.add(key, DISCHARGED, where, what, "product computed in a sufficiently wide type; square bound is inclusive", func=f.name)
     res.stats["comparison_sites"] = cmp_sites
     return res
+
+
+# ------------------------------------------------------------------------------------------------
+# N5 INTEGER-ACCUMULATOR: std::accumulate & co. over real samples do not sum into an integer  (C12, C14, C16, C19, C20, C08)
+N5_FILES = [
+    (re.compile(r"include/dsplib/(lms|rls)\.h$"), "C12"),
+    (re.compile(r"include/dsplib/tuner\.h$|lib/hilbert\.cpp$|include/dsplib/hilbert\.h$"), "C14"),
+    (re.compile(r"lib/corr\.cpp$|lib/medfilt\.cpp$"), "C16"),
+    (re.compile(r"lib/awgn\.cpp$|lib/snr\.cpp$|lib/random\.cpp$"), "C19"),
+    (re.compile(r"include/dsplib/audio/[^/]+\.h$|lib/agc\.cpp$|lib/ma-filter\.h$"), "C20"),
+    (re.compile(r"lib/resample/"), "C08"),
+]
+ACCUMULATORS = {"std::accumulate": 2, "std::reduce": 2, "std::inner_product": 3, "std::transform_reduce": None}
+
+
+def rule_N5(prog, fixture=False):
+    res = RuleResult("N5", "the initial value of std::accumulate / std::reduce / std::inner_product over floating-point elements is "
+                           "itself floating point: with an integer literal (`0`) the accumulator has type int and every partial sum is "
+                           "truncated")
+    n = 0
+    for f in sorted(prog.functions.values(), key=lambda f: (f.file, f.line, f.name)):
+        if f.get("implicit") or f.file.endswith("coverage.cc"):
+            continue
+        rel = prog.rel(f.file)
+        props = [p for (rx, p) in N5_FILES if rx.search(rel)]
+        if fixture:
+            props = ["C12"]
+        if not props:
+            continue
+        idx = 0
+        for x in f.walk():
+            if not (x.k == "CallExpr" and x.callee and x.callee.get("qn") in ACCUMULATORS):
+                continue
+            pos = ACCUMULATORS[x.callee["qn"]]
+            args = x.call_args()
+            if pos is None or pos >= len(args):
+                continue
+            idx += 1
+            n += 1
+            init = args[pos].strip()
+            # element type: the pointee / value type of the first iterator argument
+            it = args[0].strip()
+            ety = (it.type or "")
+            floating = ("double" in ety or "float" in ety or "real_t" in ety or "cmplx_t" in ety)
+            key = "N5:%s:acc%d" % (fkey(f), idx)
+            where = "%s:%d" % (rel, x.line)
+            what = "%s in %s" % (x.text()[:70], f.short)
+            extra = {"props": props}
+            if init.tc in ("int", "bool", "enum") and floating:
+                res.add(key, VIOLATED, where, what,
+                        "the elements are %s but the initial value %s has type %s: the sum is carried in an integer and truncated at every step"
+                        % (ety.replace("const ", "").strip(), init.text(), init.type), func=f.name, extra=extra)
+            elif floating:
+                res.add(key, DISCHARGED, where, what, "accumulates in %s" % init.type, func=f.name, extra=extra)
+            else:
+                res.add(key, DISCHARGED, where, what, "integer elements", func=f.name, extra=extra)
+    res.stats["accumulate_calls"] = n
+    return res
